@@ -103,6 +103,10 @@ func builtinMathExp(call FunctionCall) Value {
 
 func builtinMathExpm1(call FunctionCall) Value {
 	number := call.Argument(0).float64()
+	if number > mathExpLarge {
+		// e^x - 1 is e^x there; math.Expm1 overflows one argument early.
+		return float64Value(mathExp(number))
+	}
 	return float64Value(math.Expm1(number))
 }
 
